@@ -256,6 +256,14 @@ def judge_case(pid, run, case, res, known):
         seen_num = False
         for w in ("normal", "low"):
             for e, o, ws in outs[w][0]:
+                if e.k == "raw-urange" and getattr(e, "kind", None) != "replayed":
+                    # unicode code points are integers too: the range must denote the same code points
+                    run.count("numeric:unicode-range")
+                    if urange_value(o["raw"]) != urange_value(e.v):
+                        viol(f"unicode-range {e.v!r} was emitted as {o['raw']!r}: not the same code points", out=res["out"])
+                        return
+                    seen_num = True
+                    continue
                 if e.k not in ("num", "dim", "pct") or getattr(e, "kind", None) == "replayed":
                     continue
                 seen_num = True
